@@ -10,6 +10,48 @@ ADAPTORS = [
 ]
 
 
+def _amount_ctx(F, b, inner):
+    """where and how an adaptor sees the byte count its inner read/write returned.
+    Idiom A: inner(..).inspect(|amt| ..)  -> (closure body, operand derives from the closure argument)
+    Idiom B: let amt = inner(..)?; ..; Ok(amt) -> (the method body, operand derives from the Continue payload)
+    Returns (body, is_amount(operand), returns_inner_result) or None"""
+    insp = [t for _, t in b.calls() if re.search(r"Result::<T, E>::inspect$", callee_name(t))]
+    for t in insp:
+        src = [x for k, x in origins(b, t["a"][0]) if k == "call"]
+        if src and src[0] is inner and t["cls"]:
+            cb = F.body(t["cls"][0])
+            if cb is not None:
+                def is_amt(o, cb=cb):
+                    if op_place(o) is None:
+                        return False
+                    rp = root_place(cb, o)
+                    return (rp is not None and rp["l"] == 2) or 2 in backward_slice(cb, o)["args"]
+                return cb, is_amt, t["d"]["l"] == 0
+    for bi, t in b.calls():
+        if re.search(r"Try>::branch$", callee_name(t)):
+            src = [x for k, x in origins(b, t["a"][0]) if k == "call"]
+            if src and src[0] is inner:
+                cf = t["d"]["l"]
+
+                def is_amt(o, cf=cf):
+                    if op_place(o) is None:
+                        return False
+                    rp = root_place(b, o)
+                    if rp is not None and rp["l"] == cf and any("Continue" in e for e in rp["p"]):
+                        return True
+                    sl = backward_slice(b, o)
+                    return any(c is t for c in sl["calls"]) and not any(re.search(r"::len$", callee_name(c)) for c in sl["calls"])
+                # the value returned on success is Ok(amount)
+                ret_ok = False
+                for bl in b.blocks:
+                    for st in bl["s"]:
+                        rv = st["rv"]
+                        if st["d"]["l"] == 0 and not st["d"]["p"] and rv["r"] == "agg" and rv.get("var") == "Ok" and rv["ops"] and is_amt(rv["ops"][0]):
+                            ret_ok = True
+                return b, is_amt, ret_ok
+    return None
+
+
 def count_rules(ctx, rep, P):
     F = ctx.facts()
     n = 0
@@ -17,39 +59,27 @@ def count_rules(ctx, rep, P):
         bs = impl_method(F, rep, P + ".count", tr, st, meth)
         for b in bs:
             n += 1
-            # the inner call's result is passed through Result::inspect with a closure that updates the state
-            insp = [t for _, t in b.calls() if re.search(r"Result::<T, E>::inspect$", callee_name(t))]
             inner = [t for _, t in b.calls() if (t["f"].get("path") or "") in ("std::io::Read::read", "std::io::Write::write")]
-            good = len(insp) == 1 and len(inner) == 1 and b.return_blocks() and insp[0]["d"]["l"] == 0
-            if good:
-                src = [x for k, x in origins(b, insp[0]["a"][0]) if k == "call"]
-                good = bool(src) and src[0] is inner[0]
-            rep.check(P + ".count", "%s::%s returns the inner result unchanged and updates %s only on Ok (Result::inspect)" % (st.strip("^$"), meth, field), good, loc_of(b), "",
-                      "the adaptor no longer forwards the inner stream's result through inspect: errors or byte counts could be altered")
-            cl = [F.body(c) for t in insp for c in t["cls"]]
-            for cb in cl:
-                if cb is None:
-                    continue
-                if field == "count":
-                    sl_ok = False
-                    for bl in cb.blocks:
-                        for s in bl["s"]:
-                            if s["rv"]["r"] == "bin" and s["rv"]["op"].startswith("Add"):
-                                sl = backward_slice(cb, s["rv"]["b"])
-                                if 2 in sl["args"]:
-                                    sl_ok = True
-                    rep.check(P + ".count", "%s::%s counts the bytes the inner stream reported" % (st.strip("^$"), meth), sl_ok, loc_of(cb), "",
-                              "the byte counter is not advanced by the returned amount (e.g. by buf.len() instead): short transfers would be miscounted")
-                else:
-                    idx = [t for _, t in cb.calls() if re.search(r"Index<.*>( for \[T\])?>::index$", callee_name(t))]
-                    good2 = False
-                    for t in idx:
-                        sl = backward_slice(cb, t["a"][1])
-                        if 2 in sl["args"] and any(a["adt"] == "std::ops::Range" for a in sl["aggs"]):
+            ac = _amount_ctx(F, b, inner[0]) if len(inner) == 1 else None
+            rep.check(P + ".count", "%s::%s returns the inner result unchanged and updates %s only on Ok (Result::inspect)" % (st.strip("^$"), meth, field), ac is not None and ac[2], loc_of(b), "",
+                      "the adaptor no longer hands the inner stream's result (error or byte count) back to its caller unchanged")
+            if ac is None:
+                continue
+            cb, is_amt, _ = ac
+            if field == "count":
+                sl_ok = any(st_["rv"]["r"] == "bin" and st_["rv"]["op"].startswith("Add") and (is_amt(st_["rv"]["a"]) or is_amt(st_["rv"]["b"])) for bl in cb.blocks for st_ in bl["s"])
+                rep.check(P + ".count", "%s::%s counts the bytes the inner stream reported" % (st.strip("^$"), meth), sl_ok, loc_of(cb), "",
+                          "the byte counter is not advanced by the returned amount (e.g. by buf.len() instead): short transfers would be miscounted")
+            else:
+                idx = [t for _, t in cb.calls() if re.search(r"Index<.*>( for \[T\])?>::index$", callee_name(t))]
+                good2 = False
+                for t in idx:
+                    for k, x in origins(cb, t["a"][1]):
+                        if k == "agg" and x.get("adt") in ("std::ops::Range", "std::ops::RangeTo") and is_amt(x["ops"][-1]):
                             good2 = True
-                    upd = [t for c2 in [cb] + F.closures_of(cb) for _, t in c2.calls() if (t["f"].get("path") or "").endswith("Checksum::update")]
-                    rep.check(P + ".count", "%s::%s folds the checksum over buf[0..amt], the bytes actually transferred" % (st.strip("^$"), meth), good2 and bool(upd), loc_of(cb), "",
-                              "the checksum is folded over bytes other than the ones the inner stream transferred (whole buffer instead of buf[0..amt]): short reads/writes corrupt the CRC")
+                upd = [t for c2 in [cb] + F.closures_of(cb) for _, t in c2.calls() if (t["f"].get("path") or "").endswith("Checksum::update")]
+                rep.check(P + ".count", "%s::%s folds the checksum over buf[0..amt], the bytes actually transferred" % (st.strip("^$"), meth), good2 and bool(upd), loc_of(cb), "",
+                          "the checksum is folded over bytes other than the ones the inner stream transferred (whole buffer instead of buf[0..amt]): short reads/writes corrupt the CRC")
     rep.floor(P + ".count", "I/O adaptors", n, 4)
     # the block-size limiter of the metadata reader
     lr = [b for b in F.bodies if b.promoted is None and re.search(r"LimitedReader<R> as std::io::Read>::read$", b.path)]
@@ -57,26 +87,24 @@ def count_rules(ctx, rep, P):
         rep.bad(P + ".count", "anchor:LimitedReader::read", "", "not found")
     for b in lr[:1]:
         mins = [t for _, t in b.calls() if re.search(r"Ord::min$|cmp::min$", callee_name(t))]
-        cl = F.closures_of(b)
-        subs = [s for c in cl for bl in c.blocks for s in bl["s"] if s["rv"]["r"] == "bin" and s["rv"]["op"].startswith("Sub")]
-        subs += [t for c in cl for _, t in c.calls() if re.search(r"SubAssign<.*>>::sub_assign$", callee_name(t))]
-        in_parent = [s for bl in b.blocks for s in bl["s"] if s["rv"]["r"] == "bin" and s["rv"]["op"].startswith("Sub")]
-        in_parent += [t for _, t in b.calls() if re.search(r"SubAssign<.*>>::sub_assign$", callee_name(t))]
-        insp = [t for _, t in b.calls() if re.search(r"Result::<T, E>::inspect$", callee_name(t))]
-        by_arg = False
-        for c in cl:
-            for bl in c.blocks:
-                for s_ in bl["s"]:
-                    if s_["rv"]["r"] == "bin" and s_["rv"]["op"].startswith("Sub"):
-                        rp = root_place(c, s_["rv"]["b"])
-                        by_arg = rp is not None and rp["l"] == 2   # the closure's own argument: the count the inner read returned
-            for _, t in c.calls():
-                if re.search(r"SubAssign<.*>>::sub_assign$", callee_name(t)):
-                    rp = root_place(c, t["a"][1])
-                    by_arg = rp is not None and rp["l"] == 2
-        rep.check(P + ".count", "LimitedReader: the remaining block size shrinks by the bytes actually read", len(mins) == 1 and len(subs) == 1 and not in_parent and len(insp) == 1 and by_arg, loc_of(b), "",
+        inner = [t for _, t in b.calls() if (t["f"].get("path") or "") == "std::io::Read::read"]
+        ac = _amount_ctx(F, b, inner[0]) if len(inner) == 1 else None
+        by_amt = False
+        nsub = 0
+        if ac is not None:
+            cb, is_amt, _ = ac
+            for body in {id(b): b, id(cb): cb}.values():
+                for bl in body.blocks:
+                    for s_ in bl["s"]:
+                        if s_["rv"]["r"] == "bin" and s_["rv"]["op"].startswith("Sub"):
+                            nsub += 1
+                            by_amt = by_amt or (body is cb and is_amt(s_["rv"]["b"]))
+                for _, t in body.calls():
+                    if re.search(r"SubAssign<.*>>::sub_assign$", callee_name(t)):
+                        nsub += 1
+                        by_amt = by_amt or (body is cb and is_amt(t["a"][1]))
+        rep.check(P + ".count", "LimitedReader: the remaining block size shrinks by the bytes actually read", len(mins) == 1 and ac is not None and ac[2] and nsub == 1 and by_amt, loc_of(b), "",
                   "the metadata block limiter no longer accounts the bytes returned by the inner read: a source that splits its reads ends the block early")
-
 
 def flush_forward_rules(ctx, rep, P):
     """every io::Write adaptor of the crate forwards flush() to the stream it wraps and returns that result"""
